@@ -29,8 +29,11 @@ RULES = {
     "method patched by wrap_ir_classes (graph.append(self) …) comes after the assignment of every field of the class's "
     "__slots__ - inside a journal the patched method formats its argument for the entry (repr reads doc_string, name, …), so a "
     "field assigned later makes the constructor raise AttributeError inside a journal and succeed outside",
+    "R8": "one entry per recorded operation: every normal path through Journal.record appends one entry to the journal's list and then runs "
+    "the hooks - there is no return before the append and no test that drops an entry (a filter such as 'same object, operation "
+    "and details as the last entry' silently merges genuine repetitions: `g.outputs.clear()` twice is two operations)",
 }
-FLOORS = {"R1": 43, "R2": 4, "R3": 40, "R4": 4, "R5": 40, "R6": 2, "R7": 1}
+FLOORS = {"R1": 43, "R2": 4, "R3": 40, "R4": 4, "R5": 40, "R6": 2, "R7": 1, "R8": 2}
 EXPLANATION = (
     "Compares the patch table, the capture table and the restore table of the journaling wrappers as sets of "
     "resolved targets; checks the shape of every wrapper (CFG: exactly one call of the original on every path, "
@@ -335,6 +338,41 @@ def rule_r2(ctx):
                   "entry's view - the IR classes stay patched (and the current journal stays set) after the outermost block is left",
                   how="state handed from __enter__ to __exit__ is pushed on a per-journal stack and popped, or __enter__ refuses a second entry",
                   construct=f"single slot {fld} shared by nested entries")
+
+
+def rule_r8(ctx):
+    jc = ctx.repo.cls(f"{JR}:Journal")
+    rec = jc.methods.get("record")
+    ctx.require(rec is not None, "Journal.record not found")
+    cfg = CFG(rec.node)
+    me = rec.params[0]
+    appends = [c for c in calls_in(rec) if isinstance(c.func, ast.Attribute) and c.func.attr == "append" and isinstance(c.func.value, ast.Attribute)
+               and norm(c.func.value.value) == me and not any(isinstance(a, (ast.For, ast.While)) for a in _anc(c, rec.node))]
+    ctx.require(bool(appends), "Journal.record: append to the entry list not found")
+    via = {n.id for c in appends for n in cfg.nodes_containing(c)}
+    ok = len(appends) == 1 and cfg.all_paths_through(cfg.entry, via, {cfg.exit.id}, exc=False)
+    early = next((r for r in own_nodes(rec.node) if isinstance(r, ast.Return)), None)
+    ctx.check("R8", "Journal.record: every normal path appends exactly one entry", bool(ok), rec, early if early is not None else rec.node,
+              "Journal.record can return without appending the entry (or appends more than one): an instrumented operation that completed leaves no entry - e.g. "
+              "two identical consecutive operations are merged into one",
+              how="must-pass query on the CFG of record(): entry → `self.<entries>.append(…)` → exit; a single append outside loops",
+              construct="record() can skip the append")
+    # the hooks see every entry: the loop over the hooks is reached on every path as well and is not guarded
+    loops = [lp for lp in own_nodes(rec.node) if isinstance(lp, ast.For) and isinstance(lp.iter, ast.Attribute) and norm(lp.iter.value) == me]
+    okh = False
+    if loops:
+        ln = [n for n in cfg.node_of(loops[0]) if n.kind == "iter"]
+        okh = bool(ln) and cfg.all_paths_through(cfg.entry, {ln[0].id}, {cfg.exit.id}, exc=False)
+    ctx.check("R8", "Journal.record: the hooks are run for every entry", okh, rec, loops[0] if loops else rec.node,
+              "the hooks of the journal are not called for every recorded entry", how="must-pass query: entry → loop over self.<hooks> → exit", nontrivial=False,
+              construct="record() can skip the hooks")
+
+
+def _anc(n, stop):
+    p = getattr(n, "_parent", None)
+    while p is not None and p is not stop:
+        yield p
+        p = getattr(p, "_parent", None)
 
 
 def _wrapper_of(factory: FuncInfo) -> FuncInfo | None:
@@ -682,6 +720,7 @@ def rule_r7(ctx):
 
 
 def run(ctx):
+    rule_r8(ctx)
     rule_r7(ctx)
     rule_r1(ctx)
     rule_r2(ctx)
